@@ -1,1 +1,139 @@
-fn main(){}
+//! Child processes for the fault-injection engine (run under strace).
+//!
+//!   vchild filesink <path> <create|overwrite|append> <stream|packet> <chunk sizes...>
+//!   vchild mkbuf <bytes> [<bytes>...]
+use std::io::Write;
+
+use rustradio::block::Block;
+use rustradio::blocks::{FileSink, NoCopyFileSink};
+use rustradio::file_sink::Mode;
+use rustradio::stream::{new_nocopy_stream, new_stream};
+
+/// A marker that shows up in the syscall trace and nowhere else.
+fn marker(s: &str) {
+    // SAFETY: plain write(2) to a descriptor that is not open.
+    unsafe {
+        libc::write(999, s.as_ptr() as *const libc::c_void, s.len());
+    }
+}
+
+static CONSUMED: std::sync::atomic::AtomicUsize = std::sync::atomic::AtomicUsize::new(0);
+static UNIT: std::sync::atomic::AtomicUsize = std::sync::atomic::AtomicUsize::new(4);
+
+/// Every consume shows up in the syscall trace, with the number of file
+/// bytes that have been acknowledged as consumed so far.
+fn on_consume(n: usize) {
+    use std::sync::atomic::Ordering::SeqCst;
+    let total = CONSUMED.fetch_add(n * UNIT.load(SeqCst), SeqCst) + n * UNIT.load(SeqCst);
+    marker(&format!("ACK {total}"));
+}
+
+fn count_maps() -> usize {
+    std::fs::read_to_string("/proc/self/maps").map(|s| s.lines().count()).unwrap_or(0)
+}
+
+fn count_fds() -> usize {
+    std::fs::read_dir("/proc/self/fd").map(|d| d.count()).unwrap_or(0)
+}
+
+fn main() {
+    let args: Vec<String> = std::env::args().collect();
+    match args[1].as_str() {
+        "filesink" => {
+            let path = &args[2];
+            let mode = match args[3].as_str() {
+                "create" => Mode::Create,
+                "overwrite" => Mode::Overwrite,
+                _ => Mode::Append,
+            };
+            let chunks: Vec<usize> = args[5..].iter().map(|s| s.parse().unwrap()).collect();
+            rustradio::verif::set_default_stream_size(Some(4096));
+            UNIT.store(if args[4] == "stream" { 4 } else { 5 }, std::sync::atomic::Ordering::SeqCst);
+            rustradio::verif::set_consume_hook(Some(on_consume));
+            let mut total = 0usize;
+            let mut serial = 0u32;
+            if args[4] == "stream" {
+                let (w, r) = new_stream::<u32>();
+                let mut sink = match FileSink::<u32>::new(r, path, mode) {
+                    Ok(s) => s,
+                    Err(e) => {
+                        println!("CTOR-ERR {e}");
+                        return;
+                    }
+                };
+                println!("CTOR-OK");
+                std::io::stdout().flush().unwrap();
+                marker("START");
+                for c in chunks {
+                    let mut wb = w.write_buf().unwrap();
+                    for i in 0..c {
+                        wb.slice()[i] = serial;
+                        serial += 1;
+                    }
+                    wb.produce(c, &[]);
+                    // work() until it has consumed everything.
+                    loop {
+                        sink.work().unwrap();
+                        if w.free() == 1024 {
+                            break;
+                        }
+                    }
+                    total += c * 4;
+                    marker(&format!("RETURNED {total}"));
+                }
+            } else {
+                let (w, r) = new_nocopy_stream::<u32>();
+                let mut sink = match NoCopyFileSink::<u32>::new(r, path, mode) {
+                    Ok(s) => s,
+                    Err(e) => {
+                        println!("CTOR-ERR {e}");
+                        return;
+                    }
+                };
+                println!("CTOR-OK");
+                std::io::stdout().flush().unwrap();
+                marker("START");
+                for c in chunks {
+                    for _ in 0..c {
+                        w.push(serial, &[]);
+                        serial += 1;
+                        sink.work().unwrap();
+                        // Each packet is serialized plus a newline.
+                        total += 5;
+                        marker(&format!("RETURNED {total}"));
+                    }
+                }
+            }
+            marker("DONE");
+        }
+        "mkbuf" => {
+            let sizes: Vec<usize> = args[2..].iter().map(|s| s.parse().unwrap()).collect();
+            // Warm up everything that allocates lazily (stdout, tempdir lookup).
+            println!("WARM");
+            std::io::stdout().flush().unwrap();
+            let _ = std::env::temp_dir();
+            let (m0, f0) = (count_maps(), count_fds());
+            marker("START");
+            let mut live = vec![];
+            for s in sizes {
+                let r = std::panic::catch_unwind(|| rustradio::circular_buffer::Buffer::<u32>::new(s));
+                match r {
+                    Err(_) => println!("RESULT panic"),
+                    Ok(Err(e)) => println!("RESULT err {e}"),
+                    Ok(Ok(b)) => {
+                        println!("RESULT ok");
+                        live.push(b);
+                    }
+                }
+            }
+            marker("MADE");
+            let (m1, f1) = (count_maps(), count_fds());
+            println!("LIVE {} maps+{} fds+{}", live.len(), m1 as i64 - m0 as i64, f1 as i64 - f0 as i64);
+            drop(live);
+            let (m2, f2) = (count_maps(), count_fds());
+            println!("AFTER maps+{} fds+{}", m2 as i64 - m0 as i64, f2 as i64 - f0 as i64);
+            marker("DONE");
+        }
+        _ => panic!("usage"),
+    }
+}
